@@ -52,6 +52,15 @@ def gen_world(rng, n=None, small_values=True):
     return world
 
 
+def with_equal_but_distinct_objects(world):
+    """the plain objects of the world become instances of a class with value equality over (a, b): with values 0..2
+    several of them are equal to each other while being distinct objects"""
+    for o in world:
+        if o["cls"] == "P":
+            o["cls"] = "PE"
+    return world
+
+
 # --------------------------------------------------------------------------- structure helpers
 def term_vars(t):
     k = t[0]
